@@ -235,3 +235,9 @@ Definition SV_series_overlay_ok (union : bool) (ixa : option (list val)) (ss : l
                 (combine (fst o) (snd (snd o)))
     end
   end.
+
+(* ------------------------------------------------------------------ kernel: index_many_set *)
+Definition MV_many_set_ok (union : bool) (ls : list (list val)) (obs : list val) : bool :=
+  vlist_eqb (M_index_many_set val_eqb lleb_val union ls) obs.
+Definition SV_many_set_ok (union : bool) (ls : list (list val)) (obs : list val) : bool :=
+  nodupb val_eqb obs && same_set obs (S_aligned val_eqb union ls).
